@@ -923,7 +923,7 @@ def check_CONF(tier, seed):
             o.update(enc=True, bmh=False, bmv=False)
         ocases.append({"id": "out-%05d" % i, "family": "whole-output", "S": S, "opts": o})
     ocases += cases_from_S(r3.cases[::(8 if quick else 1)], "orole", "whole-output-roles", vary_validate=False, o=F.opts(enc=True, mv="glam", bmv=True))
-    t2 = run_vdriver(ocases, "CONF_out", keep=["items", "structs", "groups", "fns"])
+    t2 = run_vdriver(ocases, "CONF_out", keep=["items", "structs", "groups", "fns", "overrides", "compute", "wg_sizes", "vertex_structs", "pipeline_layout", "entry_consts", "source"])
     tr2 = validate_trace(t2, "OUT", chunk_lines=4000)
     d2 = list(tr2.verdicts)
     for v in d2[:20]:
